@@ -1,6 +1,7 @@
 from framework import Query
 
 LEVEL = 'model_checking'
+WORKERS = {'quick': 8, 'thorough': 5}   # cadical / kissat runs of this harness need up to ~10 GB each
 MANIFEST = {
     'level_text': 'Bounded model checking of the real hash search, checked lookup and v-table pointer publishing: ids are arbitrary '
                   '64-bit values, the random multipliers are arbitrary, the state left by earlier updates is arbitrary; the solver '
